@@ -73,6 +73,16 @@ class AFunc:
         return "AFunc"
 
 
+class ABound:
+    """A bound method obtained with getattr(obj, "name")."""
+
+    def __init__(self, obj, name):
+        self.obj, self.name = obj, name
+
+    def __repr__(self):
+        return f"ABound<{self.name}>"
+
+
 class AIdx(AArr):
     """An array of integer indices (np.arange, argsort ...): as a subscript
     it is advanced indexing, not a mask."""
@@ -1348,6 +1358,19 @@ class Interp:
                     self.expr(a, env)
                 return ""
         if isinstance(e.func, ast.Name) and isinstance(
+                env.get(e.func.id), ABound):
+            bm = env[e.func.id]
+            return self.obj_method(bm.obj, bm.name,
+                                   [self.expr(a, env) for a in e.args],
+                                   self.keywords(e, env))
+        if isinstance(e.func, ast.Call) and ast.unparse(
+                e.func.func) == "getattr":
+            bm = self.expr(e.func, env)
+            if isinstance(bm, ABound):
+                return self.obj_method(bm.obj, bm.name,
+                                       [self.expr(a, env) for a in e.args],
+                                       self.keywords(e, env))
+        if isinstance(e.func, ast.Name) and isinstance(
                 env.get(e.func.id), AFunc):
             fv0 = env[e.func.id]
             return self.call_afunc(fv0, [self.expr(a, env) for a in e.args],
@@ -1360,6 +1383,17 @@ class Interp:
         return res
 
     def _call_tail(self, e, env, name, args, kw):
+        if name == "getattr" and len(args) == 2 and isinstance(
+                args[0], AObj) and isinstance(args[1], str):
+            if args[1] in ("proj_data", "aux_data", "dual_data",
+                           "unit_ndims", "aux_ndims", "dual_ndims"):
+                return getattr(args[0], args[1])
+            m = self.find_method(args[0], args[1])
+            if m is None:
+                raise AttributeErrorSim(args[1])
+            if any(ast.unparse(d) == "property" for d in m.decorator_list):
+                return self.call_node(m, [args[0]])
+            return ABound(args[0], args[1])
         if name == "isinstance" and len(args) == 2:
             return False if isinstance(args[0], (AArr, AScal)) else \
                 self._isinstance(args[0], e.args[1])
